@@ -145,7 +145,7 @@ def run_transformations(ctx):
     """Real author sums; students submit transformed (equal) or perturbed (unequal) sums."""
     from mitxgraders import SumGrader
     rng = ctx.rng
-    for i in range(ctx.n(1600, 30000)):
+    for i in range(ctx.n(1600, 150000)):
         tpl, f, kind = rng.choice(SUMMANDS)
         lo, hi = sorted([rng.randint(-8, 8), rng.randint(-8, 8)])
         if hi - lo < 1:
@@ -218,7 +218,7 @@ def run_transformations(ctx):
 def run_percent(ctx):
     """Percentage tolerance is relative to the AUTHOR's sum: near-boundary misses on both sides."""
     rng = ctx.rng
-    for i in range(ctx.n(640, 8000)):
+    for i in range(ctx.n(640, 40000)):
         tpl, f, kind = rng.choice(SUMMANDS[:5])
         lo, hi = sorted([rng.randint(-6, 6), rng.randint(-6, 6)])
         hi = max(hi, lo + 1)
@@ -254,7 +254,7 @@ def run_positions(ctx):
         if not ctx.mine(si):
             continue
         ctx.count('input_position_subsets')
-        for rep in range(ctx.pick(6, 40)):
+        for rep in range(ctx.pick(6, 100)):
             order = list(subset)
             rng.shuffle(order)
             # the dictionary is written in an order of its own: box numbers, not key order, say which box is which
@@ -316,7 +316,7 @@ def run_positions(ctx):
 
 def run_infinite(ctx):
     rng = ctx.rng
-    for i in range(ctx.n(320, 5000)):
+    for i in range(ctx.n(320, 25000)):
         cutoff = rng.choice([50, 100, 200, 1000])
         ratio = rng.choice([2.0, 1.5, 3.0]) if cutoff <= 200 else 2.0
         eo = rng.choice([0, 1, 2])
@@ -338,7 +338,7 @@ def run_infinite(ctx):
         wit = {'submission': sub, 'even_odd': eo, 'infty_val': cutoff, 'terms': count, 'reference_sum': value}
         judge(ctx, 'C19:infinite:' + form, out, not perturb, wit)
     # finite limits beyond the cutoff are NOT truncated: the cutoff only replaces infinite limits
-    for i in range(ctx.n(160, 2000)):
+    for i in range(ctx.n(160, 10000)):
         cutoff = rng.choice([3, 5, 8])
         eo = rng.choice([0, 1, 2])
         lo = rng.randint(-12, 2)
